@@ -23,10 +23,12 @@ type symGen struct {
 	pick, pos int
 	// json: values as obtained by decoding JSON (`any` holds float64, never int64)
 	json bool
+	// fixedKeys: string map keys are the concrete "k" (no key-equality forks)
+	fixedKeys bool
 }
 
 func (e *Engine) symValue(t types.Type, name string, depth, mode int) Value {
-	g := &symGen{e: e, name: name, mode: mode & 1, json: mode&2 != 0}
+	g := &symGen{e: e, name: name, mode: mode & 1, json: mode&2 != 0, fixedKeys: mode&4 != 0}
 	if mode&1 == 1 {
 		n := countTop(t)
 		g.pick = g.choose(n + 1)
@@ -151,7 +153,10 @@ func (g *symGen) gen(t types.Type, depth int, top bool) Value {
 		}
 		g.e.nextID++
 		m := &MapV{ID: g.e.nextID, Tag: "sym:" + g.name + "{}"}
-		k := g.gen(u.Key(), depth-1, false)
+		var k Value = "k"
+		if !g.fixedKeys || !isStringType(u.Key()) {
+			k = g.gen(u.Key(), depth-1, false)
+		}
 		m.Entries = append(m.Entries, &MapEntry{K: k, V: g.gen(u.Elem(), depth-1, false)})
 		return m
 	case *types.Struct:
